@@ -118,12 +118,24 @@ impl VotingBuilder {
         set
     }
 
+    /// number of voters that precede `voter` in the ledger's order
+    fn ledger_rank(&self, voter: &Voter) -> usize {
+        let mut rank = 0;
+        for (other, _) in self.votes.iter() {
+            if voter_precedes(other, voter) {
+                rank += 1;
+            }
+        }
+        rank
+    }
+
     pub fn get_plutus_witnesses(&self) -> PlutusWitnesses {
         let tag = RedeemerTag::new_vote();
         let mut scripts = PlutusWitnesses::new();
-        for (i, (_, voter_votes)) in self.votes.iter().enumerate() {
+        for (voter, voter_votes) in self.votes.iter() {
             if let Some(ScriptWitnessType::PlutusScriptWitness(s)) = &voter_votes.script_witness {
-                let index = BigNum::from(i);
+                // the redeemer index is the voter's position in the ledger's order, not in this map's
+                let index = BigNum::from(self.ledger_rank(voter));
                 scripts.add(&s.clone_with_redeemer_index_and_tag(&index, &tag));
             }
         }
@@ -202,4 +214,34 @@ impl VotingBuilder {
         }
         VotingProcedures(voters)
     }
+}
+
+fn voter_role(v: &Voter) -> u8 {
+    match &v.0 {
+        VoterEnum::ConstitutionalCommitteeHotCred(_) => 0,
+        VoterEnum::DRep(_) => 1,
+        VoterEnum::StakingPool(_) => 2,
+    }
+}
+
+fn voter_hash_bytes(v: &Voter) -> Vec<u8> {
+    match &v.0 {
+        VoterEnum::ConstitutionalCommitteeHotCred(cred) => cred.to_raw_bytes(),
+        VoterEnum::DRep(cred) => cred.to_raw_bytes(),
+        VoterEnum::StakingPool(key_hash) => key_hash.to_bytes(),
+    }
+}
+
+/// Strict order of voters as the ledger sorts them (`Map Voter ..`): committee hot credentials, then DReps, then
+/// stake pools; within a role script credentials before key credentials, then by hash bytes.
+pub(crate) fn voter_precedes(a: &Voter, b: &Voter) -> bool {
+    if voter_role(a) != voter_role(b) {
+        return voter_role(a) < voter_role(b);
+    }
+    let a_is_key = !a.has_script_credentials();
+    let b_is_key = !b.has_script_credentials();
+    if a_is_key != b_is_key {
+        return b_is_key;
+    }
+    voter_hash_bytes(a) < voter_hash_bytes(b)
 }
